@@ -87,6 +87,23 @@ theorem write_in_place_not_shared (ls : List Label) (s : St) (h : run Cfg.code S
   refine ⟨?_, hinv.curDel sl hcur, hinv.curPool sl hcur⟩
   simp only [step, hcur, hroom, if_true]
 
+/-- **The model's slices are valid Go slices** along every run: `len ≤ cap` for `p.intermediate`, every
+    pooled and every delivered slice (so `append` grows exactly when `len = cap`, and the growing
+    `append` copies the whole old array). -/
+theorem slices_within_capacity (ls : List Label) (s : St) (h : run Cfg.code St.init ls = some s) :
+    (∀ c, s.cur = some c → c.len ≤ (cells s.heap c.arr).length) ∧
+    (∀ p ∈ s.pool, p.len ≤ (cells s.heap p.arr).length) ∧
+    (∀ d ∈ s.delivered, d.s.len ≤ (cells s.heap d.s.arr).length ∧ d.snap.length = d.s.len) := by
+  have hinv := run_inv ls St.init s Inv_init h
+  have hcap := run_cap ls St.init s Inv_init Cap_init h
+  refine ⟨hcap.cur, hcap.pool, fun d hd => ⟨hcap.del d hd, ?_⟩⟩
+  have h1 := hinv.intact d hd
+  have h2 := hcap.del d hd
+  simp only [Deliv.now] at h1
+  simp only [lenOk] at h2
+  rw [← h1, List.length_take]
+  omega
+
 /-! ### non-vacuity: reuse happens, and aliasing is real in the model -/
 
 /-- The run is enabled; the pooled slice came back with its stale length; array 0 — the array of the
